@@ -10,7 +10,7 @@ src="$root/coq/Run/Extract$ID.v"
 bin="$root/build/bin/$id"
 if [ -x "$bin" ] && [ "$bin" -nt "$root/coq/Run/Run$ID.vo" ] && [ "$bin" -nt "$root/ocaml/driver_tail.ml" ] && [ "$bin" -nt "$src" ]; then exit 0; fi
 cp "$src" "Extract$ID.v"
-timeout 600 coqc -Q "$root/coq" BiomV "Extract$ID.v" >/dev/null
+flock -s "$root/coq/.buildlock" timeout 600 coqc -Q "$root/coq" BiomV "Extract$ID.v" >/dev/null
 rm -f "$id.mli"
 cat "$id.ml" "$root/ocaml/driver_tail.ml" > "${id}_main.ml"
 timeout 600 ocamlfind ocamlopt -w -a -O2 "${id}_main.ml" -o "$bin" 2>/dev/null || timeout 600 ocamlfind ocamlopt -w -a "${id}_main.ml" -o "$bin"
